@@ -116,6 +116,7 @@ type RunOpts struct {
 	Over   map[string]stdModel
 	Opaque map[string]bool
 	Setup  func(x *Exec) // extra declarations before execution
+	Loops  map[int]*LoopSpec
 }
 
 func (e *Engine) verifyFunc(key string, withTrace bool, maxDepth int) (fr *FuncResult) {
@@ -134,7 +135,7 @@ func (e *Engine) verifyFuncOpts(key string, o RunOpts) (fr *FuncResult) {
 	vc := &VC{S: newScript(), ls: newLayouts(), mapFams: map[string]*mapFam{}, nonNil: map[string]bool{},
 		mem: map[string]*memNode{}, allocP: map[string][]string{}, bornLt: map[string]string{}, isAlloc: map[string]bool{}, allocAfter: map[string]string{}, distinct: map[[2]string]bool{}}
 	fr.VC = vc
-	x := &Exec{eng: e, vc: vc, top: fn, topC: ct, maxDepth: maxDepth, nonNil: vc.nonNil, over: o.Over, opaque: o.Opaque}
+	x := &Exec{eng: e, vc: vc, top: fn, topC: ct, maxDepth: maxDepth, nonNil: vc.nonNil, over: o.Over, opaque: o.Opaque, loopSpecs: o.Loops}
 	fr.Exec = x
 	if withTrace {
 		x.trace = newTrace()
